@@ -136,9 +136,12 @@ impl RawMemoryFreeList {
     }
 
     fn current_capacity(&self) -> i32 {
-        let list_blocks = conversions::bytes_to_pages_up(self.high_water - self.base) as i32
-            / self.pages_per_block;
-        self.units_in_first_block() + (list_blocks - 1) * self.units_per_block()
+        // The table mapped so far holds one entry pair per unit, plus the sentinels (one per head
+        // at the top, one at the bottom).  Count the mapped bytes rather than whole blocks: the
+        // last block is cut short at `limit` when the table size is not a multiple of the block
+        // size.
+        let mapped_units = ((self.high_water - self.base) >> LOG_BYTES_IN_UNIT) as i32;
+        mapped_units - self.heads - 1
     }
 
     pub fn grow_freelist(&mut self, units: i32) -> bool {
